@@ -152,6 +152,7 @@ func main() {
 	// functions
 	fns := map[string]*fn{}
 	byName := map[string][]*fn{} // methods by name
+	implCache := map[string]bool{}
 	for _, p := range all {
 		for _, f := range p.Syntax {
 			for _, d := range f.Decls {
@@ -201,8 +202,20 @@ func main() {
 			}
 			// a call through an interface (or an embedded interface): every method of that name
 			if sig, ok := obj.Type().(*types.Signature); ok && sig.Recv() != nil {
-				if _, isIface := sig.Recv().Type().Underlying().(*types.Interface); isIface {
-					res = append(res, byName[obj.Name()]...)
+				if iface, isIface := sig.Recv().Type().Underlying().(*types.Interface); isIface {
+					// class-hierarchy analysis: methods of that name whose receiver type has all the interface's method names
+					// (types of different packages come from different type-checker universes here, so the test is by method names)
+					for _, y := range byName[obj.Name()] {
+						key := y.obj.FullName() + "|" + sig.Recv().Type().String()
+						ok, seen := implCache[key]
+						if !seen {
+							ok = hasMethodNames(y, iface)
+							implCache[key] = ok
+						}
+						if ok {
+							res = append(res, y)
+						}
+					}
 				}
 			}
 			return true
@@ -304,6 +317,8 @@ func main() {
 						switch {
 						case obj.Pkg().Path() == "time" && (obj.Name() == "Now" || obj.Name() == "Since" || obj.Name() == "Until"):
 							others = append(others, Other{"time.Now", f, l, fname, src(s)})
+						case obj.Pkg().Path() == "time" && (obj.Name() == "NewTimer" || obj.Name() == "After" || obj.Name() == "AfterFunc" || obj.Name() == "NewTicker" || obj.Name() == "Tick" || obj.Name() == "Sleep"):
+							others = append(others, Other{"time.Timer", f, l, fname, src(s)})
 						case obj.Pkg().Path() == "math/rand" && obj.Type().(*types.Signature).Recv() == nil && obj.Name() != "New" && obj.Name() != "NewSource":
 							others = append(others, Other{"math/rand", f, l, fname, src(s)})
 						}
@@ -348,6 +363,23 @@ func main() {
 		ocnt[o.Kind]++
 	}
 	fmt.Printf("packages=%d functions=%d reachable=%d map-range sites=%d %v others=%v\n", len(all), len(fns), len(reach), len(sites), cnt, ocnt)
+}
+
+// hasMethodNames: the receiver type of y declares (or promotes) every method name of the interface
+func hasMethodNames(y *fn, iface *types.Interface) bool {
+	recv := y.obj.Type().(*types.Signature).Recv().Type()
+	ms := types.NewMethodSet(recv)
+	if p, ok := recv.(*types.Pointer); !ok {
+		ms = types.NewMethodSet(types.NewPointer(recv))
+	} else {
+		_ = p
+	}
+	for i := 0; i < iface.NumMethods(); i++ {
+		if ms.Lookup(y.obj.Pkg(), iface.Method(i).Name()) == nil {
+			return false
+		}
+	}
+	return true
 }
 
 func truncate(s string, n int) string {
@@ -427,7 +459,7 @@ func classify(x *fn, s *ast.RangeStmt) (string, string) {
 	bad := ""
 	// calls that only copy their receiver/argument
 	pureCall := func(c *ast.CallExpr) bool {
-		if sel, ok := c.Fun.(*ast.SelectorExpr); ok && (sel.Sel.Name == "Clone" || sel.Sel.Name == "Copy") && len(c.Args) == 0 {
+		if sel, ok := c.Fun.(*ast.SelectorExpr); ok && (sel.Sel.Name == "Clone" || sel.Sel.Name == "Copy" || sel.Sel.Name == "Msgsize") && len(c.Args) == 0 {
 			return true
 		}
 		if id, ok := c.Fun.(*ast.Ident); ok && (id.Name == "make" || id.Name == "new" || id.Name == "len" || id.Name == "cap") {
@@ -583,6 +615,15 @@ func classify(x *fn, s *ast.RangeStmt) (string, string) {
 				kinds["S1"] = true
 				return
 			}
+			if c, ok := t.X.(*ast.CallExpr); ok {
+				cs := src(c.Fun)
+				if strings.HasPrefix(cs, "logging.Logger.") || strings.HasPrefix(cs, "Logger.") || strings.HasPrefix(cs, "logging.N2n.") {
+					return // logging only
+				}
+				if identName(c.Fun) == "copy" && len(c.Args) == 2 && locals[rootIdent(c.Args[0])] && pureE(c.Args[1]) {
+					return // copy into a loop-local buffer
+				}
+			}
 			bad = "call per element: " + truncate(src(t.X), 60)
 		case *ast.AssignStmt:
 			if len(t.Lhs) == 1 && len(t.Rhs) == 1 && identName(t.Lhs[0]) == "_" && pureE(t.Rhs[0]) {
@@ -659,9 +700,34 @@ func classify(x *fn, s *ast.RangeStmt) (string, string) {
 		case *ast.ReturnStmt:
 			bad = "return inside the loop"
 		case *ast.SwitchStmt:
-			bad = "switch on the element"
+			if t.Init != nil || (t.Tag != nil && !pureE(t.Tag)) {
+				bad = "switch with init / call"
+				return
+			}
+			for _, cc := range t.Body.List {
+				cl := cc.(*ast.CaseClause)
+				for _, e := range cl.List {
+					if !pureE(e) {
+						bad = "case with a call"
+						return
+					}
+				}
+				walkList(cl.Body, k)
+			}
 		default:
 			bad = fmt.Sprintf("%T", st)
+		}
+	}
+	// exists / for-all with early exit: `for … { if cond { return C1 } }; return C2` with constant C1, C2
+	if len(s.Body.List) == 1 {
+		if ifs, ok := s.Body.List[0].(*ast.IfStmt); ok && ifs.Init == nil && ifs.Else == nil && len(ifs.Body.List) == 1 {
+			if rs, ok := ifs.Body.List[0].(*ast.ReturnStmt); ok && constResults(rs) && lookupOnly(info, ifs.Cond) {
+				if next := stmtAfter(x, s); next != nil {
+					if rs2, ok := next.(*ast.ReturnStmt); ok && constResults(rs2) {
+						return "S2", "exists/for-all with early return of a constant"
+					}
+				}
+			}
 		}
 	}
 	walkList(s.Body.List, key)
@@ -683,6 +749,71 @@ func classify(x *fn, s *ast.RangeStmt) (string, string) {
 	default:
 		return "S1", "keyed writes / set / copies"
 	}
+}
+
+func constResults(rs *ast.ReturnStmt) bool {
+	for _, r := range rs.Results {
+		switch e := r.(type) {
+		case *ast.Ident:
+			if e.Name != "true" && e.Name != "false" && e.Name != "nil" {
+				return false
+			}
+		case *ast.BasicLit:
+		default:
+			return false
+		}
+	}
+	return true
+}
+
+// lookupOnly: calls allowed in an exists-condition are read-only lookups (HasNode, Has…, Get…, Contains…, len)
+func lookupOnly(info *types.Info, e ast.Expr) bool {
+	ok := true
+	ast.Inspect(e, func(n ast.Node) bool {
+		if c, isCall := n.(*ast.CallExpr); isCall {
+			name := ""
+			switch f := c.Fun.(type) {
+			case *ast.SelectorExpr:
+				name = f.Sel.Name
+			case *ast.Ident:
+				name = f.Name
+			}
+			if !(strings.HasPrefix(name, "Has") || strings.HasPrefix(name, "Get") || strings.HasPrefix(name, "Contains") || strings.HasPrefix(name, "Is") || name == "len") {
+				ok = false
+			}
+		}
+		return ok
+	})
+	return ok
+}
+
+// stmtAfter: the statement following the loop in its enclosing block
+func stmtAfter(x *fn, loop *ast.RangeStmt) ast.Stmt {
+	var res ast.Stmt
+	ast.Inspect(x.decl.Body, func(n ast.Node) bool {
+		if b, ok := n.(*ast.BlockStmt); ok {
+			for i, st := range b.List {
+				if st == ast.Stmt(loop) {
+					// logging statements between the loop and the return do not count
+					j := i + 1
+					for j < len(b.List) {
+						if es, ok := b.List[j].(*ast.ExprStmt); ok {
+							if c, ok := es.X.(*ast.CallExpr); ok && (strings.HasPrefix(src(c.Fun), "logging.Logger.") || strings.HasPrefix(src(c.Fun), "Logger.")) {
+								j++
+								continue
+							}
+						}
+						break
+					}
+					if j < len(b.List) {
+						res = b.List[j]
+					}
+				}
+			}
+		}
+		return res == nil
+	})
+	return res
 }
 
 // sortedAfter: the first statement after the loop (in the enclosing block) that mentions tgt is a sort call on it.
@@ -718,6 +849,22 @@ func sortedAfter(x *fn, loop *ast.RangeStmt, tgt string) bool {
 
 func q(s string) string { return strconv.Quote(s) }
 
+// shortFunc: the function's name without package path and receiver decoration: "(*chaincore/chain.Chain).updateState" -> "updateState"
+func shortFunc(f string) string {
+	if i := strings.LastIndex(f, "."); i >= 0 {
+		return f[i+1:]
+	}
+	return f
+}
+
+func bytesLit(s string) string {
+	parts := make([]string, len(s))
+	for i := 0; i < len(s); i++ {
+		parts[i] = strconv.Itoa(int(s[i]))
+	}
+	return "[" + strings.Join(parts, ", ") + "]"
+}
+
 func writeLean(path string, sites []Site, others []Other) {
 	var b strings.Builder
 	b.WriteString("import ZChain.Model.DetTypes\n")
@@ -730,17 +877,17 @@ func writeLean(path string, sites []Site, others []Other) {
 		if i == len(sites)-1 {
 			sep = ""
 		}
-		fmt.Fprintf(&b, "  ⟨%s, %d, %s, Shape.%s, %v⟩%s\n", q(s.File), s.Line, q(s.Func), strings.ToLower(s.Shape), s.Gen, sep)
+		fmt.Fprintf(&b, "  ⟨%s, %d, %s, %s, Shape.%s, %v⟩%s\n", q(s.File), s.Line, q(s.Func), bytesLit(s.File+":"+shortFunc(s.Func)), strings.ToLower(s.Shape), s.Gen, sep)
 	}
 	b.WriteString("]\n\n")
 	b.WriteString("/-- clock reads, unseeded randomness, goroutines and selects in the same functions: (kind, file, line, function) -/\n")
-	b.WriteString("def others : List (String × String × Nat × String) := [\n")
+	b.WriteString("def others : List Other := [\n")
 	for i, o := range others {
 		sep := ","
 		if i == len(others)-1 {
 			sep = ""
 		}
-		fmt.Fprintf(&b, "  (%s, %s, %d, %s)%s\n", q(o.Kind), q(o.File), o.Line, q(o.Func), sep)
+		fmt.Fprintf(&b, "  ⟨%s, %s, %d, %s, %s⟩%s\n", q(o.Kind), q(o.File), o.Line, q(o.Func), bytesLit(o.Kind+"@"+o.File+":"+shortFunc(o.Func)), sep)
 	}
 	b.WriteString("]\n\nend ZChain.Generated.C06\n")
 	if err := os.WriteFile(path, []byte(b.String()), 0o644); err != nil {
